@@ -28,6 +28,10 @@ CHECKS = {
   "text": "Seeded search over stacks (spy delegate / real pool) and f_* combinators with cancel() issued 1-3 times from 1-2 threads at drawn points of each future's life x schedules (line-level pre-emption puts cancels inside hand-over windows). History oracles: nothing starts or is re-submitted after a True cancel, False while running then normal completion, no RetryExecutor re-submission after any cancel() returned, forwarding to the innermost pending work (spy records), never through f_nocancel.",
   "note": "Instance-level submit taps and spy futures observe hand-overs; a harness-side probe on ThrottleFuture._set_delegate only refines the signature of known finding F12; poll-stage cancels may succeed after the callable finished.",
   "design": "10 (C06)"},
+ "C07": {
+  "text": "Seeded search over counts {0,1,2,5,None, changing callable, raising callable} x blocking/non-blocking x 1-3 submitter threads x completion orders x cancels of queued futures x schedules, over a scripted 8-worker delegate. Oracles: admission safety at every hand-over against the value most recently returned to the hand-over thread (last good value if it raised), FIFO by real-time precedence of submit calls, no hand-over / blocked submit released only by a 2 s / 30 s fallback timer while the (static) configuration already allowed progress - exact because at a virtual clock jump nobody is runnable -, submit() works for every count in blocking mode.",
+  "note": "A future counts as in flight until set_result (or a successful cancel) has begun - conservative for the safety oracle; dynamic counts are exempt from the promptness oracle as the property allows; blocking with count 0 excluded.",
+  "design": "10 (C07)"},
 }
 def main():
     checks = []
